@@ -328,7 +328,10 @@ def c15_d(ctx: Ctx):
                                 construct=k))
     # every attribute of the comparator that phase3 computes and the file walk reads must be remapped to the deep phase3
     if ci is not None:
-        read = {n.attr for n in body_nodes(sjw) if isinstance(n, ast.Attribute) and isinstance(n.value, ast.Name) and n.value.id == "diff"}
+        # the comparator: the local(s) bound to dircmp(...) / _dircmp_deep(...)
+        cmpv = {t.id for n in body_nodes(sjw) if isinstance(n, ast.Assign) and isinstance(n.value, ast.Call) and (dotted(n.value.func) or "").split(".")[-1] in ("dircmp", "_dircmp_deep")
+                for t in n.targets if isinstance(t, ast.Name)}
+        read = {n.attr for n in body_nodes(sjw) if isinstance(n, ast.Attribute) and isinstance(n.value, ast.Name) and n.value.id in cmpv}
         phase3_attrs = {"same_files", "diff_files", "funny_files"}
         reg2 = set()
         for st in ci.node.body:
@@ -377,6 +380,23 @@ def c15_d(ctx: Ctx):
             w = ctx.calls.resolve_name_to_func(inner.module, an, inner)
             if w is not None and w.parent is not None:
                 argnames |= {x.id for x in body_nodes(w) if isinstance(x, ast.Name)}
+        # a clone-side filter must never drop the state point file / job document
+        igs = []
+        for an in {x for a in list(c.args) + [k.value for k in c.keywords] for x in names_in(a)}:
+            w = ctx.calls.resolve_name_to_func(inner.module, an, inner)
+            if w is not None and w.parent is not None:
+                for cc in body_nodes(w):
+                    if isinstance(cc, ast.Call) and kwarg(cc, "ignore") is not None:
+                        igs.append((w, cc, kwarg(cc, "ignore")))
+        for w, cc, ig in igs:
+            cb = ctx.calls.resolve_name_to_func(w.module, ig.id, w) if isinstance(ig, ast.Name) else None
+            txt = " ".join(canon(n) for n in body_nodes(cb)) if cb is not None else canon(ig)
+            kx = SP + "|clone-ignore-reserved"
+            if "FN_STATE_POINT" in txt or "signac_statepoint" in txt:
+                out.append(ctx.ok(R, w, cc, "the clone-side exclude filter never selects the state point file", construct=kx))
+            else:
+                out.append(ctx.viol(R, w, cc, "newly cloned jobs are copied with an ignore= filter built from the user's exclude patterns that does not protect the reserved names: a pattern "
+                                    "that also matches signac_statepoint.json ('.*\\.json', 'signac_.*', the CLI's bare --exclude) leaves the cloned job without state point file", construct=kx))
         if "exclude" in argnames:
             out.append(ctx.ok(R, inner, c, "the clone branch takes exclude into account", construct=SP + "|clone-exclude"))
         else:
@@ -503,4 +523,10 @@ def c15_f(ctx: Ctx):
     return out
 
 
-RULES = [c15_a, c15_b, c15_c, c15_d, c15_e, c15_f]
+@rule("C15-g")
+def c15_g(ctx: Ctx):
+    """Reading dst.document / dst.stores during a (dry-run) sync cannot write: the lazy accessors initialise without validation."""
+    return common.lazy_accessor_init(ctx, "C15-g")
+
+
+RULES = [c15_a, c15_b, c15_c, c15_d, c15_e, c15_f, c15_g]
